@@ -21,6 +21,7 @@ import (
 	"context"
 	"encoding/binary"
 	"errors"
+	"github.com/dolthub/dolt/go/store/d"
 	"io"
 	"os"
 	"reflect"
@@ -292,6 +293,9 @@ func verif_x_quota_AcquireUint64(q MemoryQuotaProvider, ctx context.Context, sz 
 func verif_x_tableIndex_prefixes(ti tableIndex, ctx context.Context) (p []uint64, cleanup func(), err error) {
 	return ti.prefixes(ctx)
 }
+func verif_x_d_PanicIfError(err error)                       { d.PanicIfError(err) }
+func verif_x_d_PanicIfTrue(b bool)                           { d.PanicIfTrue(b) }
+func verif_x_d_PanicIfFalse(b bool)                          { d.PanicIfFalse(b) }
 func verif_x_tableIndex_chunkCount(ti tableIndex) (n uint32) { return ti.chunkCount() }
 
 // verif_idxCount / verif_idxSfx: what a table index answers, as (uninterpreted) functions of the index and the
